@@ -83,6 +83,14 @@ CHECKS.update({
    ref="DESIGN.md §4 C18"),
 })
 
+CHECKS.update({
+ "C17": dict(
+   technique="property-based testing (proptest): reference restriction of the full read by interest mask and decline plan, stream-position invariant over concatenated files, replay/read differential",
+   text="Generated-input exploration: streams of 1-3 generated class files plus trailing bytes are read by successive calls on one cursor into the tree builder, (), mask-configurable tree visitors (duke feature verif) and a SimpleClassVisitor written in the harness; what a visitor receives must equal the restriction of the full read by its mask and decline plan, the cursor must sit exactly at the end of the k-th file after the k-th read, replaying a tree reproduces it, and replaying into a masked visitor equals reading into it. Holds on everything explored.",
+   note="Trusted: harness projection and restriction function, duke::verif::masked wrappers (thin delegation to the existing tree visitors). Expectations derive from duke's own full read. Whether ClassInterests.fields/methods are honoured is not asserted.",
+   ref="DESIGN.md §4 C17"),
+})
+
 NOT_YET = {
 }
 
